@@ -12,4 +12,5 @@ Definition srp_actual : squirks := {|
   q_rs_name_collision := true;
   q_rs_block_comment_counted := true;
   q_py_setter_counted := true;
-  q_py_cached_property_counted := true |}.
+  q_py_cached_property_counted := true;
+  q_ts_class_expr_skipped := true |}.
